@@ -993,7 +993,17 @@ def rule_r12(prog, res) -> None:
             if not opens:
                 # a bound super() method kept in a local and called from the closure: parent = super().to_file
                 opens = [1 for g in scope_ for x in ast.walk(g.node) if isinstance(x, ast.Attribute) and x.attr == name and isinstance(x.value, ast.Call) and isinstance(x.value.func, ast.Name) and x.value.func.id == "super" and any(e.kind == "fs" and e.op == "open" and e.mode and e.mode[0] in "wax" for b_ in prog.mro(ci)[1:] if hasattr(b_, "methods") and name in b_.methods for e, _f in S.may(b_.methods[name]))]
-            if opens:
+            # … and the opened handle is used: handed to a serialiser / written to (direct opens of this method only)
+            unused = None
+            for w_ in [x for x in ast.walk(m.node) if isinstance(x, ast.With)]:
+                for it_ in w_.items:
+                    if isinstance(it_.optional_vars, ast.Name) and isinstance(it_.context_expr, ast.Call) and any(isinstance(a_, ast.Constant) and isinstance(a_.value, str) and a_.value[:1] in "wax" for a_ in [*it_.context_expr.args, *[k.value for k in it_.context_expr.keywords]]):
+                        h = it_.optional_vars.id
+                        if not any(isinstance(y, ast.Name) and y.id == h and isinstance(y.ctx, ast.Load) for s_ in w_.body for y in ast.walk(s_)):
+                            unused = (w_, h)
+            if opens and unused is not None:
+                res.violation("C11.R12", m, unused[0], f"{ci.name}.{name} opens its destination for writing as `{unused[1]}` but never hands the handle to a serialiser nor writes to it: an empty file is left behind, the call returns normally", key_extra=f"writer-handle-unused-{ci.name}-{name}")
+            elif opens:
                 res.ok("C11.R12", res.site(m), "opens its destination for writing")
             else:
                 res.violation("C11.R12", m, m.node, f"{ci.name}.{name} never opens a file for writing (not itself, not through super() or a helper): nothing is stored, the call returns normally", key_extra=f"writer-writes-nothing-{ci.name}-{name}")
